@@ -357,7 +357,7 @@ func RunCase(c *Case) (r result) {
 			return
 		}
 		r.accepted = true
-		if msg := execute(ctx, rt, cm, eng); msg != "" {
+		if msg := execute(ctx, rt, cm, eng, c.Input); msg != "" {
 			r.msg = msg
 			rt.Close(ctx)
 			return
@@ -378,9 +378,89 @@ func rejectClass(err error) string {
 	return s
 }
 
+// startIsImport reports whether the module's start section names an imported function (class
+// of the open finding C03-compiler-reexported-host-function: the compiler cannot create a
+// callable for a host function, the panic escapes InstantiateModule).
+func startIsImport(b []byte) bool {
+	secs, _ := splitSections(b)
+	var imp, start []byte
+	for _, s := range secs {
+		switch s.id {
+		case 2:
+			imp = s.payload
+		case 8:
+			start = s.payload
+		}
+	}
+	if start == nil {
+		return false
+	}
+	rd := func(p *[]byte) (uint64, bool) {
+		var v uint64
+		var sh uint
+		for len(*p) > 0 && sh < 64 {
+			c := (*p)[0]
+			*p = (*p)[1:]
+			v |= uint64(c&0x7f) << sh
+			sh += 7
+			if c&0x80 == 0 {
+				return v, true
+			}
+		}
+		return 0, false
+	}
+	st, ok := rd(&start)
+	if !ok {
+		return false
+	}
+	nfunc := uint64(0)
+	n, ok := rd(&imp)
+	for i := uint64(0); ok && i < n; i++ {
+		for k := 0; k < 2; k++ { // module and field names
+			l, ok2 := rd(&imp)
+			if !ok2 || l > uint64(len(imp)) {
+				return st < nfunc
+			}
+			imp = imp[l:]
+		}
+		if len(imp) == 0 {
+			break
+		}
+		kind := imp[0]
+		imp = imp[1:]
+		switch kind {
+		case 0:
+			rd(&imp)
+			nfunc++
+		case 1: // table: reftype limits
+			if len(imp) > 0 {
+				imp = imp[1:]
+			}
+			fl, _ := rd(&imp)
+			rd(&imp)
+			if fl&1 != 0 {
+				rd(&imp)
+			}
+		case 2:
+			fl, _ := rd(&imp)
+			rd(&imp)
+			if fl&1 != 0 {
+				rd(&imp)
+			}
+		case 3:
+			if len(imp) >= 2 {
+				imp = imp[2:]
+			}
+		default:
+			return st < nfunc
+		}
+	}
+	return st < nfunc
+}
+
 // execute instantiates an accepted module with synthesised imports and calls every export;
 // only internal failures count.
-func execute(ctx context.Context, rt wazero.Runtime, cm wazero.CompiledModule, eng string) string {
+func execute(ctx context.Context, rt wazero.Runtime, cm wazero.CompiledModule, eng string, cmInput []byte) string {
 	// synthesise host modules for function imports; other import kinds cannot be satisfied
 	// without knowing their types through the public API beyond functions/memories: skip those.
 	byMod := map[string][]api.FunctionDefinition{}
@@ -417,6 +497,10 @@ func execute(ctx context.Context, rt wazero.Runtime, cm wazero.CompiledModule, e
 		}
 	}
 	if abandoned >= 3 {
+		return ""
+	}
+	if startIsImport(cmInput) {
+		evid.Label("excluded-start-function-is-host-import", 1)
 		return ""
 	}
 	done := make(chan string, 1)
